@@ -3,7 +3,7 @@
 # with /root/.vp/BASELINE.json (263 stable tests must pass).
 unset XSDATA_VERIF
 OUT="$(mktemp -d)"
-cd /repo && /venv/bin/python -m pytest -ra -q -p no:cacheprovider --timeout=900 --continue-on-collection-errors --junitxml="$OUT/j.xml" >"$OUT/log" 2>&1
+cd "${XV_BASELINE_REPO:-/repo}" && /venv/bin/python -m pytest -ra -q -p no:cacheprovider --timeout=900 --continue-on-collection-errors --junitxml="$OUT/j.xml" >"$OUT/log" 2>&1
 /venv/bin/python - "$OUT/j.xml" <<'PY'
 import json, sys, xml.etree.ElementTree as ET
 base = set(json.load(open('/root/.vp/BASELINE.json'))['stable_pass'])
